@@ -308,3 +308,85 @@ def cells():
         for w in (1, 2, 8):
             res.append(sc.with_options(s, {"workers": w}, "k%d" % w))
     return res
+
+
+# ---------------------------------------------------------------- shared pipeline of checks/C19.py and checks/c13_sched_stage.py
+
+MAP_FIELDS = {"labels", "sel"}
+OPTION_GRID = [{"minValues": mv, "maxTypes": mt, "workers": w} for mv in ("Strict", "BestEffort") for mt in (0, 1, 2) for w in (1, 2, 8)]
+ALL_WEAK = ["order", "lowest", "ready", "chargeSum", "truncFirst", "rankDearest", "rankUnavailable", "truncMin", "ovhPerPod", "ovhNone",
+            "staleHash", "simKeys", "noStartup", "noRelax"]
+INVS = ("Inv_C19_HighestWeightFeasible", "Inv_C19_CheapestPrefix", "Inv_C13_TypesSubsetMinValues", "Inv_C13_Requests", "Inv_C13_Template")
+# fidelity classes that were analysed on the unchanged tree and are NOT model gaps (see the C19 notes in the manifest)
+EXPLAINED_FIDELITY = {("Fid_C19_Chosen", "chosen-pool-node-limit-exhausted-for-spec")}
+
+
+def fix_maps(x, key=None):
+    """TLC prints an empty function as []; scenario map fields must be JSON objects"""
+    if isinstance(x, dict):
+        return {k: fix_maps(v, k) for k, v in x.items()}
+    if isinstance(x, list):
+        if not x and key in MAP_FIELDS:
+            return {}
+        return [fix_maps(v) for v in x]
+    return x
+
+
+def run_driver(run, scenarios, tag, procs):
+    """replay scenarios on the real code with `procs` driver processes; returns (trace files, summaries, hook H1 present)"""
+    import concurrent.futures as cf
+    import json
+    import os
+    import vlib
+    chunks = vlib.shard(scenarios, procs)
+    files, sums, hook = [], [], True
+    run.build_drv()
+
+    def one(i_chunk):
+        i, chunk = i_chunk
+        path = os.path.join(run.work, "%s-%02d.scn.ndjson" % (tag, i))
+        sc.write_scenarios(path, chunk)
+        return json.loads(run.drv("sched", ["-in", path, "-out", os.path.join(run.work, "traces"), "-shards", max(1, len(chunk) // 500),
+                                            "-prefix", "%s-%02d" % (tag, i)], timeout=3000).strip().splitlines()[-1])
+
+    with cf.ThreadPoolExecutor(max_workers=procs) as ex:
+        for out in ex.map(one, list(enumerate(chunks))):
+            files += out["files"]
+            sums += out["summaries"]
+            hook = hook and bool(out.get("hook"))
+    return files, sums, hook
+
+
+def replay_and_validate(run, scenarios, tag, procs, par):
+    """driver + Weights_Trace.tla; returns (violations of every guard, per-trace case records, driver summaries).
+    Drift_* entries (the trace and the scenario / the spec's bookkeeping disagree: harness problem) end the check with exit 2."""
+    import json
+    import vlib
+    files, sums, hook = run_driver(run, scenarios, tag, procs)
+    if not hook:
+        raise vlib.InfraError("the tree under test does not carry hook H1 (repo-patches/hook-H1.patch): no Sched events, C19 cannot be decided")
+    bad = [s for s in sums if s.get("status") != "ok"]
+    if bad:
+        raise vlib.InfraError("driver could not materialise %d scenarios, e.g. %s" % (len(bad), bad[0]))
+    viol = run.validate("Weights_Trace", "Weights_Trace.cfg", files, par=par, timeout=3000)
+    drift = [v for v in viol if str(v.get("guard", "")).startswith("Drift_")]
+    if drift:
+        raise vlib.InfraError("trace and specification disagree on bookkeeping (harness problem, no verdict): %s" % drift[:3])
+    cases = []
+    for f in files:
+        cases += json.load(open(f + ".viol.json")).get("cases", [])
+    return viol, cases, sums
+
+
+def split_fidelity(run, viol):
+    """Fid_* / Obs_* entries are the fidelity comparison of FeasibleFresh with the real code and observations outside the
+    statement: reported and counted, never a verdict.  They are removed from run.viol."""
+    import collections
+    fid = [v for v in viol if str(v.get("guard", "")).startswith(("Fid_", "Obs_"))]
+    run.viol = [v for v in run.viol if not str(v.get("guard", "")).startswith(("Fid_", "Obs_"))]
+    cnt = collections.Counter((v["guard"], v["sig"]) for v in fid)
+    unexplained = {k: n for k, n in cnt.items() if k[0].startswith("Fid_") and k not in EXPLAINED_FIDELITY}
+    for (g, s), n in sorted(cnt.items()):
+        run.notes.append("%s %s/%s x%d%s" % ("MODEL-DRIFT" if (g, s) in unexplained else "observation", g, s, n,
+                                               " (UNEXPLAINED disagreement between FeasibleFresh and the code: model gap or C01 issue)" if (g, s) in unexplained else ""))
+    return cnt, unexplained
